@@ -171,10 +171,15 @@ func jobC13(c *rt.Ctx) {
 		hf := crypto.Hash(sel)
 		okSel := sel == 0 || hf == crypto.SHA512
 		d := map[string]interface{}{"hash": sel}
-		for style := 0; style < 2; style++ {
+		for style := 0; style < 4; style++ {
 			var o crypto.SignerOpts = hf
-			if style == 1 {
+			switch style {
+			case 1:
 				o = &Options{Hash: hf, Context: "c"}
+			case 2:
+				o = customOpts{hf} // a caller-defined SignerOpts, by value
+			case 3:
+				o = &customOptsPtr{hf} // ... and by pointer
 			}
 			want := "error"
 			if okSel {
